@@ -1,6 +1,7 @@
 // C11 — every finite double survives format(17 significant digits) -> parse bit for bit; every float survives 9 digits.
 // Oracle: round trip (bit identity).
 #include "common/pbt.hpp"
+#include <algorithm>
 #include "common/numgen.hpp"
 
 #include <cmath>
@@ -212,6 +213,61 @@ struct H {
             }
             ctx.exhaustive      = true;
             ctx.exhaustive_what = "all finite float bit patterns, 9 significant digits";
+        } else if (what.compare(0, 12, "least-slack-") == 0) {
+            // Where 17 digits have the least room: a binade whose top lies just above a power of ten (2^k = 1.00x * 10^m). The doubles
+            // in [10^m, 2^k) are spaced almost as widely as 17-digit decimals with leading digit 1, so the correctly rounded text of
+            // some of them lies within ~5 * 10^-18 (relative) of the midpoint to a neighbouring double - the text-to-double step has
+            // no slack there. The slivers are found by a scan over all k (no table); the 12 tightest are walked with an even stride,
+            // M million doubles per shard in total.
+            struct Sliver {
+                double   ratio;
+                uint64_t lo, hi;
+            };
+            std::vector<Sliver> sl;
+            for (int k = -1021; k <= 1023; ++k) {
+                const double p = std::ldexp(1.0, k);
+                const int    m = int(std::floor(std::log10(p)));
+                char         b[32];
+                snprintf(b, sizeof b, "1e%d", m);
+                const double t = strtod(b, nullptr);
+                if (t <= 0 || t > p) {
+                    continue;
+                }
+                const double r = p / t;
+                if (r < 1.04) {
+                    Sliver x;
+                    x.ratio = r;
+                    memcpy(&x.lo, &t, 8);
+                    memcpy(&x.hi, &p, 8);
+                    if (x.hi > x.lo) {
+                        sl.push_back(x);
+                    }
+                }
+            }
+            std::sort(sl.begin(), sl.end(), [](const Sliver &a, const Sliver &b) { return a.ratio < b.ratio; });
+            if (sl.size() > 12) {
+                sl.resize(12);
+            }
+            const uint64_t total = strtoull(what.c_str() + 12, nullptr, 10) * 1000000ULL;
+            const uint64_t per   = total / (sl.empty() ? 1 : sl.size());
+            for (const Sliver &x : sl) {
+                const uint64_t span   = x.hi - x.lo;
+                const uint64_t stride = span / (per * nshards) + 1;
+                for (uint64_t bts = x.lo + stride * shard % span, n = 0; n < per && bts < x.hi; bts += stride * nshards, ++n) {
+                    Case c;
+                    c.kind = 0;
+                    c.bits = bts;
+                    c.cls  = "least-slack";
+                    if (pbt::exec_case_fast<H>(ctx, c) == pbt::Status::Fail) {
+                        return;
+                    }
+                    c.bits |= 0x8000000000000000ULL;
+                    if ((n & 15) == 0 && pbt::exec_case_fast<H>(ctx, c) == pbt::Status::Fail) {
+                        return;
+                    }
+                }
+            }
+            ctx.labels["least-slack:slivers"] += sl.size();
         } else {
             // a lattice over the finite double bit patterns: fixed odd stride, each shard its own phase, both signs
             const uint64_t stride = 307445734561ULL;
